@@ -425,6 +425,10 @@ def dispatch (kind : String) (args res : List String) : Except String (Findings 
   | "bddh" => BddChk.checkHist args res
   | "bddtd" => BddChk.checkToTd args res
   | "mthrc" => MtHist.check true args res
+  | "apisweep" =>
+    -- API sweep of C20: nothing functional is judged (a sanitizer report / crash never reaches this point); the tag is
+    -- the outcome vector (R returned, N NotImplementedException, E other std::exception)
+    pure ([], " ".intercalate res)
   | _ => throw s!"unknown kind {kind}"
 
 def toks (line : String) : List String := (line.trimAscii.toString.splitOn " ").filter (· != "")
